@@ -35,7 +35,7 @@ def h16a(c, n=2, mode="S", statuses="quick", kinds=None, new_kinds=None, part_ca
             kw["exclusion"] = orders[0]
             ods = ds[1:]
         elif variant == "new_order":
-            no, nd = pos.mk_position_order(c, "new", strategy, mode, new=True, kinds=new_kinds or kinds or pos.KINDS)
+            no, nd = pos.mk_position_order(c, "new", strategy, mode, new=True, kinds=new_kinds or kinds or pos.KINDS, new_tif=True)
             no.update_client(client)
             kw["new_order"] = no
             ods = ds + [nd]
